@@ -32,9 +32,10 @@ structure Good (s : State) : Prop where
   aliveConn : alive s = true → s.dials ∉ s.dead
   estab_rng : ∀ x ∈ s.estab, 1 ≤ x ∧ x ≤ s.cur
   startedEstab : s.started = true → s.cur ∈ s.estab
+  waiting_rng : ∀ x ∈ s.waiting, 1 ≤ x ∧ x ≤ s.cur
 
-theorem good_init : Good init := by
-  constructor <;> simp [init, alive] <;> omega
+theorem good_init (src : ConnSrc) : Good (initWith src) := by
+  constructor <;> simp [initWith, alive] <;> omega
 
 
 
@@ -42,7 +43,7 @@ theorem nodup_snoc {l : List Nat} {x : Nat} (h : l.Nodup) (hx : x ∉ l) : (l ++
   rw [List.nodup_append]; simp_all; grind
 
 theorem good_stop {s : State} (hg : Good s) : Good (closeStub s) := by
-  obtain ⟨h1, h2, h3, h4, h5, h6, h7, h8, h9, h10, h11, h12, h13, h14, h15⟩ := hg
+  obtain ⟨h1, h2, h3, h4, h5, h6, h7, h8, h9, h10, h11, h12, h13, h14, h15, h16⟩ := hg
   unfold closeStub
   split
   · simp only [closeClient, markDead]
@@ -51,7 +52,7 @@ theorem good_stop {s : State} (hg : Good s) : Good (closeStub s) := by
   · constructor <;> assumption
 
 theorem good_lose {s : State} (hg : Good s) (ha : alive s = true) : Good (lose s) := by
-  obtain ⟨h1, h2, h3, h4, h5, h6, h7, h8, h9, h10, h11, h12, h13, h14, h15⟩ := hg
+  obtain ⟨h1, h2, h3, h4, h5, h6, h7, h8, h9, h10, h11, h12, h13, h14, h15, h16⟩ := hg
   simp only [lose, closeClient, markDead]
   have e1 : s.cur ∉ s.inflight → (s.inflight ++ [s.cur]).Nodup := fun h => nodup_snoc h6 h
   constructor <;> simp only [alive] at * <;> grind [mem_ins]
@@ -59,7 +60,7 @@ theorem good_lose {s : State} (hg : Good s) (ha : alive s = true) : Good (lose s
 theorem good_notify {s : State} {sid : Nat} (hg : Good s) (ha : sid ∈ s.inflight) :
     Good (let s1 := if sid = s.cur then closeStub s else s
           { s1 with inflight := s1.inflight.erase sid, fired := s1.fired ++ [sid] }) := by
-  obtain ⟨h1, h2, h3, h4, h5, h6, h7, h8, h9, h10, h11, h12, h13, h14, h15⟩ := hg
+  obtain ⟨h1, h2, h3, h4, h5, h6, h7, h8, h9, h10, h11, h12, h13, h14, h15, h16⟩ := hg
   have e1 : ∀ x, x ∈ s.inflight.erase sid ↔ x ≠ sid ∧ x ∈ s.inflight :=
     fun x => List.Nodup.mem_erase_iff h6
   have e2 : (s.inflight.erase sid).Nodup := List.Nodup.erase _ h6
@@ -76,12 +77,14 @@ theorem good_notify {s : State} {sid : Nat} (hg : Good s) (ha : sid ∈ s.inflig
   · simp only [hc, if_false]
     constructor <;> simp only [alive] at * <;> grind
 
-/-- the state inside `Start` after a fresh dial and the creation of the session's client -/
-def fresh (s : State) : State :=
-  { s with conn := some (s.dials + 1), dials := s.dials + 1, cur := s.cur + 1 }
+/-- the state inside `Start` once `connect()` has produced a new connection (dialled, or —
+    `pre` — the pre-made one taken into use) and the session's client exists -/
+def fresh (pre : Bool) (s : State) : State :=
+  { s with conn := some (s.dials + 1), dials := s.dials + 1, cur := s.cur + 1,
+           preUsed := s.preUsed || pre }
 
-theorem good_fail {s : State} (hg : Good s) (hs : s.started = false) : Good (failStart fixed (fresh s)) := by
-  obtain ⟨h1, h2, h3, h4, h5, h6, h7, h8, h9, h10, h11, h12, h13, h14, h15⟩ := hg
+theorem good_fail {s : State} {pre : Bool} (hg : Good s) (hs : s.started = false) : Good (failStart fixed (fresh pre s)) := by
+  obtain ⟨h1, h2, h3, h4, h5, h6, h7, h8, h9, h10, h11, h12, h13, h14, h15, h16⟩ := hg
   simp only [failStart, closeClient, markDead, fresh, fixed]
   have e0 : s.cur + 1 ∉ s.inflight := by grind
   have e0' : s.cur + 1 ∉ s.fired := by grind
@@ -89,13 +92,13 @@ theorem good_fail {s : State} (hg : Good s) (hs : s.started = false) : Good (fai
   simp only [e0, e0', or_self, if_false]
   constructor <;> simp only [alive] at * <;> grind [mem_ins]
 
-theorem good_estab {s : State} (hg : Good s) (hs : s.started = false) : Good (establish (fresh s)) := by
-  obtain ⟨h1, h2, h3, h4, h5, h6, h7, h8, h9, h10, h11, h12, h13, h14, h15⟩ := hg
+theorem good_estab {s : State} {pre : Bool} (hg : Good s) (hs : s.started = false) : Good (establish (fresh pre s)) := by
+  obtain ⟨h1, h2, h3, h4, h5, h6, h7, h8, h9, h10, h11, h12, h13, h14, h15, h16⟩ := hg
   simp only [establish, fresh]
   constructor <;> simp only [alive] at * <;> grind
 
-theorem good_estab_lose {s : State} (hg : Good s) (hs : s.started = false) : Good (establish (lose (fresh s))) := by
-  obtain ⟨h1, h2, h3, h4, h5, h6, h7, h8, h9, h10, h11, h12, h13, h14, h15⟩ := hg
+theorem good_estab_lose {s : State} {pre : Bool} (hg : Good s) (hs : s.started = false) : Good (establish (lose (fresh pre s))) := by
+  obtain ⟨h1, h2, h3, h4, h5, h6, h7, h8, h9, h10, h11, h12, h13, h14, h15, h16⟩ := hg
   simp only [establish, lose, closeClient, markDead, fresh]
   have e0 : s.cur + 1 ∉ s.inflight := by grind
   have e0' : s.cur + 1 ∉ s.fired := by grind
@@ -103,23 +106,62 @@ theorem good_estab_lose {s : State} (hg : Good s) (hs : s.started = false) : Goo
   simp only [e0, e0', or_self, if_false]
   constructor <;> simp only [alive] at * <;> grind [mem_ins]
 
+theorem attempt_cases {s1 s' : State} {o : Script} {r : StartRes} (ho : o ≠ .stall)
+    (h : attempt fixed s1 o r = some s') :
+    ((∃ k, r = .err k) ∧ s' = failStart fixed { s1 with cur := s1.cur + 1 }) ∨
+    (o = .ok ∧ r = .ok ∧ s' = establish { s1 with cur := s1.cur + 1 }) ∨
+    (o = .dropLate ∧ r = .ok ∧ s' = establish (lose { s1 with cur := s1.cur + 1 })) := by
+  unfold attempt at h
+  cases o <;> simp [fixed] at h ⊢ <;> grind
+
 theorem start_cases {s s' : State} {o : Script} {r : StartRes} (hg : Good s) (ho : o ≠ .stall)
     (h : startStep fixed s o r = some s') :
     (s.started = true ∧ r = .err .already ∧ s' = s) ∨
-    (s.started = false ∧ o = .dialFail ∧ r = .err .dial ∧ s' = s) ∨
-    (s.started = false ∧ (∃ k, r = .err k) ∧ s' = failStart fixed (fresh s)) ∨
-    (s.started = false ∧ o = .ok ∧ r = .ok ∧ s' = establish (fresh s)) ∨
-    (s.started = false ∧ o = .dropLate ∧ r = .ok ∧ s' = establish (lose (fresh s))) := by
-  obtain ⟨h1, h2, h3, h4, h5, h6, h7, h8, h9, h10, h11, h12, h13, h14, h15⟩ := hg
+    (s.started = false ∧ (r = .err .dial ∨ r = .err .preconn) ∧ s' = s) ∨
+    (∃ pre, s.started = false ∧ (∃ k, r = .err k) ∧ s' = failStart fixed (fresh pre s)) ∨
+    (∃ pre, s.started = false ∧ o = .ok ∧ r = .ok ∧ s' = establish (fresh pre s)) ∨
+    (∃ pre, s.started = false ∧ o = .dropLate ∧ r = .ok ∧ s' = establish (lose (fresh pre s))) := by
+  have h2 := hg.connNone
   unfold startStep at h
   by_cases hs : s.started = true
   · simp only [hs, if_true] at h
     grind
   · have hs' : s.started = false := by simpa using hs
     have hc := h2 hs'
-    have hd : s.dials + 1 ∉ s.dead := by intro hm; have := h12 _ hm; omega
     simp only [hs', hc] at h
-    cases o <;> simp [connDead, hd, fixed, fresh] at h ⊢ <;> grind
+    simp only [Bool.false_eq_true, if_false] at h
+    split at h
+    · -- the consumed environment descriptor
+      split at h
+      · simp at h; subst h; exact Or.inr (Or.inl ⟨hs', Or.inr (by assumption), rfl⟩)
+      · split at h
+        · simp at h; subst h
+          refine Or.inr (Or.inr (Or.inl ⟨false, hs', ⟨_, by assumption⟩, ?_⟩))
+          simp [fresh, adopt]
+        · cases h
+    · split at h
+      · -- the pre-made connection
+        rename_i hpre
+        by_cases hof : o = .dialFail
+        · simp only [hof, if_true] at h
+          rcases attempt_cases (by simp) h with ⟨hk, rfl⟩ | ⟨h0, _⟩ | ⟨h0, _⟩
+          · exact Or.inr (Or.inr (Or.inl ⟨true, hs', hk, by simp [fresh, adopt]⟩))
+          · cases h0
+          · cases h0
+        · simp only [hof, if_false] at h
+          rcases attempt_cases ho h with ⟨hk, rfl⟩ | ⟨h0, h1, rfl⟩ | ⟨h0, h1, rfl⟩
+          · exact Or.inr (Or.inr (Or.inl ⟨true, hs', hk, by simp [fresh, adopt]⟩))
+          · exact Or.inr (Or.inr (Or.inr (Or.inl ⟨true, hs', h0, h1, by simp [fresh, adopt]⟩)))
+          · exact Or.inr (Or.inr (Or.inr (Or.inr ⟨true, hs', h0, h1, by simp [fresh, adopt]⟩)))
+      · -- the dialer
+        split at h
+        · split at h
+          · simp at h; subst h; exact Or.inr (Or.inl ⟨hs', Or.inl (by assumption), rfl⟩)
+          · cases h
+        · rcases attempt_cases ho h with ⟨hk, rfl⟩ | ⟨h0, h1, rfl⟩ | ⟨h0, h1, rfl⟩
+          · exact Or.inr (Or.inr (Or.inl ⟨false, hs', hk, by simp [fresh, adopt]⟩))
+          · exact Or.inr (Or.inr (Or.inr (Or.inl ⟨false, hs', h0, h1, by simp [fresh, adopt]⟩)))
+          · exact Or.inr (Or.inr (Or.inr (Or.inr ⟨false, hs', h0, h1, by simp [fresh, adopt]⟩)))
 
 theorem good_step {s s' : State} {e : Event} (hg : Good s) (hd : inDomain e = true)
     (h : step? fixed s e = some s') : Good s' := by
@@ -128,8 +170,8 @@ theorem good_step {s s' : State} {e : Event} (hg : Good s) (hd : inDomain e = tr
   | start o r =>
     simp only [step?, h1] at h
     have ho : o ≠ .stall := by intro hh; subst hh; simp [inDomain] at hd
-    rcases start_cases hg ho h with ⟨_, _, rfl⟩ | ⟨_, _, _, rfl⟩ | ⟨hs, _, rfl⟩ | ⟨hs, _, _, rfl⟩ |
-      ⟨hs, _, _, rfl⟩
+    rcases start_cases hg ho h with ⟨_, _, rfl⟩ | ⟨_, _, rfl⟩ | ⟨_, hs, _, rfl⟩ | ⟨_, hs, _, _, rfl⟩ |
+      ⟨_, hs, _, _, rfl⟩
     · exact hg
     · exact hg
     · exact good_fail hg hs
@@ -146,8 +188,26 @@ theorem good_step {s s' : State} {e : Event} (hg : Good s) (hd : inDomain e = tr
     simp at h; obtain ⟨ha, h⟩ := h; subst h; exact good_notify hg ha
   | wait ret =>
     simp only [step?, h1] at h
-    have : s' = s := by grind
-    subst this; exact hg
+    by_cases hret : ret = true
+    · have : s' = s := by grind
+      subst this; exact hg
+    · simp only [hret, Bool.false_eq_true, if_false] at h
+      split at h
+      · simp at h; subst h
+        rename_i hcond
+        have hst : s.started = true := by simp at hcond; exact hcond.1
+        obtain ⟨g1, g2, g3, g4, g5, g6, g7, g8, g9, g10, g11, g12, g13, g14, g15, g16⟩ := hg
+        have := g14 _ (g15 hst)
+        constructor <;> simp only [alive] at * <;> grind
+      · cases h
+  | waitRet sid =>
+    simp only [step?] at h
+    split at h
+    · simp at h; subst h
+      obtain ⟨g1, g2, g3, g4, g5, g6, g7, g8, g9, g10, g11, g12, g13, g14, g15, g16⟩ := hg
+      have e1 : ∀ x, x ∈ s.waiting.erase sid → x ∈ s.waiting := fun x hx => List.mem_of_mem_erase hx
+      constructor <;> simp only [alive] at * <;> grind
+    · cases h
   | dispatch ok =>
     simp only [step?] at h
     have : s' = s := by grind
@@ -156,7 +216,8 @@ theorem good_step {s s' : State} {e : Event} (hg : Good s) (hd : inDomain e = tr
 
 /-- `s` is reachable by the repaired machine through a history inside C16's domain. -/
 def Reach (s : State) : Prop :=
-  ∃ h : List Event, (∀ e ∈ h, inDomain e = true) ∧ run fixed init h = some s
+  ∃ (src : ConnSrc) (h : List Event),
+    (∀ e ∈ h, inDomain e = true) ∧ run fixed (initWith src) h = some s
 
 theorem good_run {s s' : State} (hg : Good s) :
     ∀ (h : List Event), (∀ e ∈ h, inDomain e = true) → run fixed s h = some s' → Good s' := by
@@ -172,13 +233,13 @@ theorem good_run {s s' : State} (hg : Good s) :
     · cases hr
 
 theorem Reach.good {s : State} (h : Reach s) : Good s := by
-  obtain ⟨hist, hd, hr⟩ := h
-  exact good_run good_init hist hd hr
+  obtain ⟨src, hist, hd, hr⟩ := h
+  exact good_run (good_init src) hist hd hr
 
 theorem Reach.step {s s' : State} {e : Event} (h : Reach s) (hd : inDomain e = true)
     (hs : step? fixed s e = some s') : Reach s' := by
-  obtain ⟨hist, hd0, hr⟩ := h
-  refine ⟨hist ++ [e], ?_, ?_⟩
+  obtain ⟨src, hist, hd0, hr⟩ := h
+  refine ⟨src, hist ++ [e], ?_, ?_⟩
   · intro e' he'; simp at he'; rcases he' with h1 | h1
     · exact hd0 e' h1
     · subst h1; exact hd
@@ -193,7 +254,7 @@ theorem Reach.step {s s' : State} {e : Event} (h : Reach s) (hd : inDomain e = t
         split at hab
         · rename_i a1 ha1; exact ih a1 b hab
         · cases hab
-    rw [this hist init s hr]; exact hs
+    rw [this hist (initWith src) s hr]; exact hs
 
 
 theorem notify_inflight {s : State} (hg : Good s) {sid : Nat} (hin : sid ∈ s.inflight) :
